@@ -20,6 +20,9 @@ Record tb := { tokens : N; last : N; rate : N; burst : N; prio : N }.
 (* little-endian bytes by shifts (N.div / N.modulo are far slower under vm_compute) *)
 Fixpoint le_n (n : nat) (v : N) : bytes :=
   match n with O => [] | S k => N.land v 255 :: le_n k (N.shiftr v 8) end.
+(* harness-facing: n bytes given as one big-endian number (one numeral instead of n list cells: Coq
+   elaborates long list literals at ~250 us per element) *)
+Definition B (n : nat) (v : N) : bytes := rev (le_n n v).
 Fixpoint le_v (l : bytes) : N := match l with [] => 0 | b :: tl => b + 256 * le_v tl end.
 Definition tb_decode (v : bytes) : option tb :=
   if N.of_nat (length v) =? 32 then
